@@ -94,6 +94,10 @@ type Config struct {
 	MaxPoints int64
 	Quantum   int64
 	Trace     bool
+	// Calm: a trivial simulation used for reference evaluations of a library
+	// that starts goroutines or uses channels (RunCalm): one caller task, no
+	// preemption, every pool Get misses, every Put is dropped.
+	Calm bool
 	// environment seams (simulated clock, CPU count, package-level randomness)
 	TickNs     int64   // clock advance per executed preemption point
 	ClockJumps []int64 // consumed one per scheduling point (clock skew / jumps forward)
@@ -829,7 +833,7 @@ const (
 //go:norace
 func PoolGet(pp **PoolState) (any, bool) {
 	s := S
-	if s == nil || s.aborting || s.cur == nil || s.cur.quiet > 0 {
+	if s == nil || s.aborting || s.cur == nil || s.cur.quiet > 0 || s.cfg.Calm {
 		return nil, false // calm mode: every Get misses, every buffer is fresh
 	}
 	p := poolState(pp)
@@ -903,7 +907,7 @@ func PoolGet(pp **PoolState) (any, bool) {
 //go:norace
 func PoolNew(pp **PoolState, x any) {
 	s := S
-	if s == nil || s.aborting || s.cur == nil || s.cur.quiet > 0 {
+	if s == nil || s.aborting || s.cur == nil || s.cur.quiet > 0 || s.cfg.Calm {
 		return
 	}
 	p := poolState(pp)
@@ -920,7 +924,7 @@ func PoolNew(pp **PoolState, x any) {
 //go:norace
 func PoolPut(pp **PoolState, x any) {
 	s := S
-	if s == nil || s.cur == nil || s.cur.quiet > 0 {
+	if s == nil || s.cur == nil || s.cur.quiet > 0 || s.cfg.Calm {
 		return // calm mode: dropped
 	}
 	p := poolState(pp)
@@ -1405,3 +1409,25 @@ func RandNext() uint64 {
 	z = (z ^ (z >> 27)) * 0x94d049bb133111eb
 	return z ^ (z >> 31)
 }
+
+// RunCalm runs fn as the only caller task of a trivial simulation when called
+// outside a run (reference evaluations of a library that starts goroutines or
+// uses channels need a scheduler to block and wake tasks); inside a run it
+// just calls fn. It returns the reason if the simulation had to be aborted
+// (deadlock, no progress).
+func RunCalm(fn func()) string {
+	if insideRun() {
+		fn()
+		return ""
+	}
+	s := New(Config{Calm: true, MaxPoints: calmBudget}, 0, false)
+	s.AddTask(fn)
+	s.Run()
+	return s.why()
+}
+
+//go:norace
+func insideRun() bool { return S != nil }
+
+//go:norace
+func (s *Sim) why() string { return s.AbortWhy }
